@@ -4,6 +4,12 @@ From RecordUpdate Require Import RecordUpdate.
 From LE Require Import Base Ev World Mon Mon2.
 Open Scope Z_scope.
 
+(* preemption is possible in a group when some member has takeover enabled and a strictly higher priority than
+   another member (rule 2005 / theorem C10 allow no other replacement of a live record) *)
+Definition preempt_possible (b : base) (key pr : Z) (tk : bool) : bool :=
+  existsb (fun kc => let c := snd kc in
+             (ic_key c =? key) && ((tk && (ic_prio c <? pr)) || (ic_takeover c && (pr <? ic_prio c)))) (b_cfgs b).
+
 (* environment facts (codes 9xxx), reported like alarms and interpreted by the driver *)
 Definition env_facts (b : base) (te : Z * ev) : list alarm :=
   match snd te with
@@ -14,7 +20,7 @@ Definition env_facts (b : base) (te : Z * ev) : list alarm :=
       | None => []
       end
   | EExtPut _ _ _ | EExtDel _ _ => [9003]
-  | EInstDef i key H TTL vi gr mh pr tk mo hh hd bt hp => when (zb tk) 9004 ++ when (zb mo) 9008
+  | EInstDef i key H TTL vi gr mh pr tk mo hh hd bt hp => when (preempt_possible b key pr (zb tk)) 9004 ++ when (zb mo) 9008
   | EApi i call a1 a2 a3 a4 gid => when (call =? aConn) 9005
   | EHealth i n res dl dur => when (negb (zb res)) 9006 ++ when (dl <? dur) 9013   (* 9013: the checker ignored its deadline *)
   | EWDrop _ _ _ _ => [9007]
